@@ -2758,6 +2758,73 @@ impl<'a> Lifter<'a> {
                 }
                 return Ok(v(format!("(match {} {{ Some({pn}) => {}, None => None }})", recv.text, body.text), &body.ty));
             }
+            // L16b: `res.and_then(|x| f(x))` / `|(a, b)|` for a tuple payload, `res.or_else(|_| g())`: spec matches; a `?`
+            // inside the closure body returns from the closure (its hoist wraps the closure's own statements)
+            ("and_then", t) if t.starts_with("Result<") && m.args.len() == 1 => {
+                let parts = split_top(&t[7..t.len() - 1]);
+                let inner = parts[0].trim().to_string();
+                let syn::Expr::Closure(cl) = &m.args[0] else { return unsupported("and_then argument", whole) };
+                if cl.inputs.len() != 1 {
+                    return unsupported("and_then closure arity", whole);
+                }
+                let mut binds: Vec<(String, String, String)> = vec![]; // (name, type, accessor)
+                match &cl.inputs[0] {
+                    syn::Pat::Ident(i) => binds.push((i.ident.to_string(), inner.clone(), "x__".into())),
+                    syn::Pat::Tuple(tp) if inner.starts_with('(') => {
+                        let tys = split_top(&inner[1..inner.len() - 1]);
+                        if tys.len() != tp.elems.len() {
+                            return unsupported("and_then closure pattern", whole);
+                        }
+                        for (k, pe) in tp.elems.iter().enumerate() {
+                            let syn::Pat::Ident(i) = pe else { return unsupported("and_then closure pattern", whole) };
+                            binds.push((i.ident.to_string(), tys[k].trim().to_string(), format!("x__.{k}")));
+                        }
+                    }
+                    _ => return unsupported("and_then closure pattern", whole),
+                }
+                self.closure_base.push(self.env.len());
+                self.env.push(HashMap::new());
+                for (n, ty, _) in &binds {
+                    self.bind(n, ty);
+                }
+                let body = self.scoped(&cl.body);
+                self.env.pop();
+                self.closure_base.pop();
+                let body = body?;
+                if !body.ty.starts_with("Result<") {
+                    return unsupported("and_then closure result", whole);
+                }
+                let lets: String = binds.iter().map(|(n, _, a)| format!("let {n} = {a}; ")).collect();
+                return Ok(v(format!("(match {} {{ Ok(x__) => {{ {lets}{} }}, Err(e__) => Err(e__) }})", recv.text, body.text), &body.ty));
+            }
+            ("or_else", t) if t.starts_with("Result<") && m.args.len() == 1 => {
+                let syn::Expr::Closure(cl) = &m.args[0] else { return unsupported("or_else argument", whole) };
+                if cl.inputs.len() != 1 {
+                    return unsupported("or_else closure arity", whole);
+                }
+                let en = match &cl.inputs[0] {
+                    syn::Pat::Ident(i) => i.ident.to_string(),
+                    syn::Pat::Wild(_) => "e__".to_string(),
+                    _ => return unsupported("or_else closure pattern", whole),
+                };
+                let ety = split_top(&t[7..t.len() - 1]).get(1).map(|x| x.trim().to_string()).unwrap_or("LErr".into());
+                self.closure_base.push(self.env.len());
+                self.env.push(HashMap::new());
+                self.bind(&en, &ety);
+                let saved = std::mem::replace(&mut self.ret_ty, t.to_string());
+                let body = self.scoped(&cl.body);
+                self.ret_ty = saved;
+                self.env.pop();
+                self.closure_base.pop();
+                let body = body?;
+                if body.ty != t && !body.ty.contains('?') {
+                    return Err(format!("construct outside rule list (lift): or_else of {} with {}", t, body.ty));
+                }
+                return Ok(v(format!("(match {} {{ Ok(x__) => Ok(x__), Err({en}) => {} }})", recv.text, body.text), t));
+            }
+            ("or", t) if t.starts_with("Option<") && args.len() == 1 && args[0].ty == t => {
+                return Ok(v(format!("(match {} {{ Some(x__) => Some(x__), None => {} }})", recv.text, args[0].text), t));
+            }
             ("cloned", t) if t.starts_with("Option<") => return Ok(recv),
             ("unwrap_or_default", t) if t.starts_with("Option<") => {
                 let inner = t[7..t.len() - 1].to_string();
